@@ -497,6 +497,20 @@ func (s SpecM) sel(dim int) (idx []int, ok bool) {
 	return idx, true
 }
 
+// ambiguous reports the one case where the statement of C02 can be read both
+// ways: a zero step whose requested extent is more than one element but whose
+// extent after clamping to the axis is one element. Either outcome is accepted.
+func (s SpecM) ambiguous(dim int) bool {
+	if s.Nil || s.Index || s.Step != 0 || s.Start < 0 || s.Start >= dim {
+		return false
+	}
+	end := s.End
+	if end > dim {
+		end = dim
+	}
+	return s.End-s.Start > 1 && end-s.Start <= 1
+}
+
 func ones(n int) []int {
 	r := make([]int, n)
 	for i := range r {
